@@ -1,5 +1,6 @@
 import YaqsModel.Basic.Parse
 import YaqsModel.Model.Trotter
+import YaqsModel.Model.MpoConv
 /-! line protocol for the model library (C07); see `harness/impl/C07.py` for the request grammar -/
 open Yaqs Yaqs.Trotter
 
@@ -236,4 +237,166 @@ def handle (line : String) : String :=
     | _, _ => "bad-op"
   | _ => "bad-op"
 
-def main : IO Unit := do lineLoop (← IO.getStdin) handle
+
+/-! ## MPO conversions, `from_matrix`, compression sweeps (extension of C07; model `Model/MpoConv.lean`)
+
+  request grammar (groups separated by `|`, complex numbers as two rationals `re im`, arrays in C order):
+    site   := `d dl dr` + `d*d*dl*dr` complex entries `tensor[a, b, l, r]`
+    dec    := `R kf C` + `R*kf` complex (u) + `kf` rationals (s) + `kf*C` complex (vh)      — what `np.linalg.svd` returned
+    tomat | site | …                 → `m rows cols entries…` by the contraction / reshape loop of `to_matrix`, or `err`
+    tomatpath | site | …             → the same matrix by the bond path sum at the digits of each row / column index
+    tosparse pd len | site | …       → the matrix `to_sparse_matrix` accumulates
+    frommat d rows cols cutoff maxB | M | dec | …   → every matrix handed to SVD, then every tensor; `ValueError`
+    sweep dir tol maxB | site | … | decs | dec | …  → every two-site matrix handed to SVD, then every tensor
+    plan nSweeps directions          → the `_compress_one_sweep` calls of `compress`, or `ValueError`
+    rotate conj | site   custom d dl dr | raw   identity L d   tomps | site   valid | d dl dr | …
+-/
+open Yaqs.MpoConv
+
+def GRat.conj (z : GRat) : GRat := ⟨z.re, -z.im⟩
+
+def parseGRats? : List String → Option (List GRat)
+  | [] => some []
+  | re :: im :: rest => do
+    let a ← parseRat? re
+    let b ← parseRat? im
+    let r ← parseGRats? rest
+    pure (⟨a, b⟩ :: r)
+  | _ => none
+
+def mkSite (d dl dr : Nat) (xs : Array GRat) : Site GRat :=
+  ⟨d, dl, dr, fun a b l r => if a < d ∧ b < d ∧ l < dl ∧ r < dr then xs.getD (((a * d + b) * dl + l) * dr + r) 0 else 0⟩
+
+def parseSite? : List String → Option (Site GRat)
+  | d :: dl :: dr :: rest => do
+    let d ← d.toNat?
+    let dl ← dl.toNat?
+    let dr ← dr.toNat?
+    let xs ← parseGRats? rest
+    if xs.length = d * d * dl * dr then pure (mkSite d dl dr xs.toArray) else none
+  | _ => none
+
+def mkMat (r c : Nat) (xs : Array GRat) : Nat → Nat → GRat :=
+  fun i j => if i < r ∧ j < c then xs.getD (i * c + j) 0 else 0
+
+def parseDec? : List String → Option (Dec GRat)
+  | r :: kf :: c :: rest => do
+    let r ← r.toNat?
+    let kf ← kf.toNat?
+    let c ← c.toNat?
+    if rest.length = 2 * r * kf + kf + 2 * kf * c then
+      let u ← parseGRats? (rest.take (2 * r * kf))
+      let s ← parseAll? parseRat? ((rest.drop (2 * r * kf)).take kf)
+      let vh ← parseGRats? (rest.drop (2 * r * kf + kf))
+      let sa := s.toArray
+      pure ⟨mkMat r kf u.toArray, s, fun p => GRat.ofRat (sa.getD p 0), mkMat kf c vh.toArray⟩
+    else none
+  | _ => none
+
+def showEntries (xs : List GRat) : String := joinWith " " (xs.map showG)
+
+def showSiteT (t : Site GRat) : String :=
+  joinWith " " (["t", toString t.d, toString t.dl, toString t.dr] ++
+    ((List.range t.d).flatMap fun a => (List.range t.d).flatMap fun b => (List.range t.dl).flatMap fun l =>
+      (List.range t.dr).map fun r => showG (t.e a b l r)))
+
+def showMatM (m : Index.Mat GRat) : String :=
+  joinWith " " (["m", toString m.rows, toString m.cols] ++
+    ((List.range m.rows).flatMap fun i => (List.range m.cols).map fun j => showG (m.e i j)))
+
+def parseCap? (s : String) : Option (Option Nat) :=
+  if s = "none" then some none else s.toNat?.map some
+
+def handleMpo (line : String) : Option String :=
+  match splitBar (words line) with
+  | ["tomat"] :: sites =>
+    some (match mapAll? parseSite? sites with
+      | some ts => (match toMatrixCode ts with | some m => showMatM m | none => "err")
+      | none => "bad-op")
+  | ["tomatpath"] :: sites =>
+    some (match mapAll? parseSite? sites with
+      | some ts =>
+        if wellFormed ts then
+          let ds := physDims ts
+          let n := Index.dimProd ds
+          showMatM ⟨n, n, fun i j => toMatrixEntry ts (Index.unflat ds i) (Index.unflat ds j)⟩
+        else "err"
+      | none => "bad-op")
+  | ["tosparse", pd, len] :: sites =>
+    some (match pd.toNat?, len.toNat?, mapAll? parseSite? sites with
+      | some pd, some len, some ts => showMatM (toSparseCode pd len ts)
+      | _, _, _ => "bad-op")
+  | ["frommat", d, rows, cols, cutoff, cap] :: mat :: decs =>
+    some (match d.toNat?, rows.toNat?, cols.toNat?, parseRat? cutoff, parseCap? cap, parseGRats? mat, mapAll? parseDec? decs with
+      | some d, some rows, some cols, some cutoff, some cap, some xs, some decs =>
+        if xs.length ≠ rows * cols then "bad-op" else
+        match inferN d rows cols with
+        | none => "ValueError"
+        | some n =>
+          if decs.length ≠ n - 1 then "bad-op" else
+          let M := mkMat rows cols xs.toArray
+          let xsM := fromMatrixXs d cutoff cap (n - 1) 1 (remOfMat M) decs
+          let ts := fromMatrixGo d cutoff cap (n - 1) 1 (remOfMat M) decs
+          joinWith " " (xsM.map showMatM ++ ts.map showSiteT)
+      | _, _, _, _, _, _, _ => "bad-op")
+  | ["sweep", dir, tol, cap] :: rest =>
+    some (
+      let dir? : Option Dir := if dir = "lr" then some .lr else if dir = "rl" then some .rl else none
+      let sites := rest.takeWhile (· ≠ ["decs"])
+      let decs := (rest.dropWhile (· ≠ ["decs"])).drop 1
+      match dir?, parseRat? tol, parseCap? cap, mapAll? parseSite? sites, mapAll? parseDec? decs with
+      | some dir, some tol, some cap, some ts, some decs =>
+        if decs.length ≠ ts.length - 1 then "bad-op" else
+        let th := compressThetas tol cap ts (sweepOrder dir ts.length) decs
+        let out := compressSweep dir tol cap ts decs
+        joinWith " " (th.map showMatM ++ out.map showSiteT)
+      | _, _, _, _, _ => "bad-op")
+  | [["plan", n, dirs]] =>
+    some (match n.toInt? with
+      | some n =>
+        (match compressPlan n dirs with
+          | none => "ValueError"
+          | some [] => "empty"
+          | some ds => joinWith " " (ds.map Dir.toString))
+      | none => "bad-op")
+  | [["rotate", cj], site] =>
+    some (match parseBool? cj, parseSite? site with
+      | some cj, some t => showSiteT (rotateSite (if cj then GRat.conj else id) t)
+      | _, _ => "bad-op")
+  | [["custom", d, dl, dr], raw] =>
+    some (match d.toNat?, dl.toNat?, dr.toNat?, parseGRats? raw with
+      | some d, some dl, some dr, some xs =>
+        if xs.length ≠ dl * dr * d * d then "bad-op" else
+        let arr := xs.toArray
+        showSiteT (customSite d dl dr fun l r a b =>
+          if l < dl ∧ r < dr ∧ a < d ∧ b < d then arr.getD (((l * dr + r) * d + a) * d + b) 0 else 0)
+      | _, _, _, _ => "bad-op")
+  | [["identity", l, d]] =>
+    some (match l.toNat?, d.toNat? with
+      | some l, some d =>
+        let ts : List (Site GRat) := identityMpo l d
+        if ts.isEmpty then "empty" else joinWith " " (ts.map showSiteT)
+      | _, _ => "bad-op")
+  | [["tomps"], site] =>
+    some (match parseSite? site with
+      | some t =>
+        joinWith " " (["p", toString (t.d * t.d), toString t.dl, toString t.dr] ++
+          ((List.range (t.d * t.d)).flatMap fun p => (List.range t.dl).flatMap fun l =>
+            (List.range t.dr).map fun r => showG (toMpsEntry t p l r)))
+      | none => "bad-op")
+  | ["valid"] :: shapes =>
+    some (
+      let sh? := mapAll? (fun ws => match ws with
+        | [d, dl, dr] => do pure ((⟨← d.toNat?, ← dl.toNat?, ← dr.toNat?, fun _ _ _ _ => 0⟩ : Site GRat))
+        | _ => none) shapes
+      match sh? with
+      | some ts => (match checkValid ts with | none => "IndexError" | some true => "1" | some false => "AssertionError")
+      | none => "bad-op")
+  | _ => none
+
+def handleAll (line : String) : String :=
+  match handleMpo line with
+  | some r => r
+  | none => handle line
+
+def main : IO Unit := do lineLoop (← IO.getStdin) handleAll
